@@ -705,6 +705,7 @@ func runC12(c *fw.Ctx) {
 	// --- evidence built through the public structs, offline verifier, reader
 	c12EvidenceCases(c, w)
 	c12ReaderCases(c, w)
+	c12CraftedEvidenceCases(c, w) // last: earlier case indices stay unchanged
 }
 
 // c12ClampClaims rewrites, in place, every octet pair that a BER reader could take for a
